@@ -58,6 +58,7 @@ type FuncContract struct {
 	Tier       string // "thorough": only checked in the thorough tier
 	Expand     bool     // lemma: prove by expanding quantifiers over constant ranges
 	Uses       []string // lemmas assumed in this function
+	Wraps      map[string]bool // int mode: operators with modular (wrapping) semantics on unsigned types: shl add sub mul
 	ParamNames []string // wildcard blocks ("f$*"): only closures with exactly these parameter names
 	Params     []SpecParam // for lemmas
 }
@@ -295,6 +296,13 @@ func ParseContractFile(path string) (*ContractFile, error) {
 				cur.Mode = rest
 			case "expand":
 				cur.Expand = true
+			case "wraps":
+				if cur.Wraps == nil {
+					cur.Wraps = map[string]bool{}
+				}
+				for _, w := range strings.Fields(rest) {
+					cur.Wraps[w] = true
+				}
 			case "params":
 				cur.ParamNames = strings.Fields(rest)
 			case "uses":
